@@ -416,6 +416,10 @@ def gir_filename(doc):
 _TEXT = st.text(alphabet=st.sampled_from(list('abcXYZ 09_-.,:;/<>&"\'%\\é中\n\t')), max_size=10)
 _KIND_WEIGHTS = (['function'] * 4 + ['callback'] * 3 + ['record'] * 4 + ['union'] * 2 + ['boxed'] + ['enumeration'] * 2
                  + ['bitfield'] * 2 + ['class'] * 5 + ['interface'] * 3 + ['constant'] * 3 + ['alias'] * 2)
+# C09: entry kinds when biased to container shapes
+_BIAS_WEIGHTS = (['function'] * 5 + ['callback'] * 5 + ['record'] * 10 + ['union'] * 8 + ['boxed'] + ['enumeration'] * 6
+                 + ['bitfield'] * 6 + ['class'] * 20 + ['interface'] * 14 + ['constant'] * 10 + ['alias'] * 3)
+SHAPE_SECTIONS = ('fields', 'properties', 'methods', 'signals', 'vfuncs', 'constants')
 _NAMEBASE = {'function': 'fn', 'callback': 'Cb', 'record': 'Rec', 'union': 'Un', 'boxed': 'Bx', 'enumeration': 'En',
              'bitfield': 'Fl', 'class': 'Obj', 'interface': 'If', 'constant': 'K', 'alias': 'Al'}
 _TRI = [None, None, None, '0', '1', '1']           # absent / explicit 0 / explicit 1
@@ -425,8 +429,13 @@ _SIZES = [1, 1, 2, 2, 3, 3, 4, 5, 6, 8, 10, 13, 17, 25]
 class _Gen(object):
     """Generates one namespace.  `env`: {ns: nsinfo} of the DIRECT includes; `glib`: GLib reachable."""
 
-    def __init__(self, draw, name, version, includes, env, glib, n_entries, rare=True):
+    def __init__(self, draw, name, version, includes, env, glib, n_entries, rare=True, bias=None):
         self.draw = draw
+        # C09 container-shape bias (None = the unbiased generator C06 uses; nothing below draws
+        # anything extra in that case).  {'shapes': [shape, ...]}: shapes forced on the first
+        # classes/interfaces of the namespace, see _BIAS_DOC.
+        self.bias = bias
+        self.shapes = list((bias or {}).get('shapes') or [])
         self.name = name
         self.version = version
         self.includes = includes
@@ -455,6 +464,8 @@ class _Gen(object):
         return self.pick(_TRI)
 
     def attrs(self, p=2, den=10):
+        if self.bias is not None:
+            p = min(den, 3 * p)
         if not self.chance(p, den):
             return []
         n = self.i(1, 3)
@@ -723,6 +734,12 @@ class _Gen(object):
         f['bits'] = None
         f['callback'] = None
         r = self.i(0, 19)
+        if self.bias is not None:
+            # more embedded callbacks (variable field size); never in a union (the compiler aborts there)
+            if container_kind in ('record', 'class') and self.chance(3):
+                r = 13
+            elif container_kind == 'union' and r in (13, 14):
+                r = 0
         T = None
         if r < 5:
             T = self.t_basic('field')
@@ -823,15 +840,25 @@ class _Gen(object):
                      'ctype': None if self.chance(1) else BASIC[base][1]}
         return k
 
-    def members(self, e, idx, kinds):
-        """kinds: which member kinds this container takes.  Fills e['members'] (document order)."""
+    def members(self, e, idx, kinds, shape=None):
+        """kinds: which member kinds this container takes.  Fills e['members'] (document order).
+        shape (bias mode, classes and interfaces): {'fields','properties','methods','signals','vfuncs',
+        'constants': bool}: the section is empty / has at least one member that reaches the typelib."""
+        def count(section, seq, forced):
+            if shape is None:
+                return self.pick(seq)
+            return self.pick(forced) if shape.get(section) else 0
+
+        def keep_first(lst):
+            if shape is not None and lst:
+                lst[0]['intro'] = None
         me = (e['name'], self.local[e['name']])
         cpre = '%s_%s' % (self.symp, e['name'].lower())
         out = []
         fields = []
         if 'field' in kinds and not (e.get('opaque') == '1' or e.get('disguised') == '1' or e.get('pointer') == '1'):
-            nf = self.pick([0, 1, 1, 2, 3, 5])
-            if e['k'] == 'class' and e.get('parent') and self.chance(7):
+            nf = count('fields', [0, 1, 1, 2, 3, 5], [1, 1, 2, 3])
+            if e['k'] == 'class' and e.get('parent') and (shape is None or shape.get('fields')) and self.chance(7):
                 pk = self.kind_of(e['parent'])
                 pinf = self.local.get(e['parent']) or self.env[e['parent'].split('.')[0]]['types'][e['parent'].split('.')[1]]
                 if pk == 'class' and (e['parent'] in self.local or pinf['byval']):
@@ -843,12 +870,13 @@ class _Gen(object):
         out += fields
         props = []
         if 'property' in kinds:
-            props = [self.property(j) for j in range(self.pick([0, 0, 1, 2, 4]))]
+            props = [self.property(j) for j in range(count('properties', [0, 0, 1, 2, 4], [1, 2, 4]))]
+            keep_first(props)
             out += props
         funcs = []
         tags = [t for t in ('method', 'constructor', 'function') if t in kinds]
         if tags:
-            nfn = self.pick([0, 1, 2, 2, 3, 5])
+            nfn = count('methods', [0, 1, 2, 2, 3, 5], [1, 2, 2, 3, 5])
             for j in range(nfn):
                 tag = self.pick(tags)
                 f = self.function('%s%d' % ({'method': 'do', 'constructor': 'new', 'function': 'st'}[tag], j), tag, owner=me, cprefix=cpre)
@@ -856,6 +884,7 @@ class _Gen(object):
                 self.info(f, hide=1)
                 f['moved_to'] = None
                 funcs.append(f)
+            keep_first(funcs)
             self.decorate_functions(funcs, self.name + '.' + e['name'] + '.')
         out += funcs
         meths = [f for f in funcs if f['m'] == 'method' and visible(f) and not f.get('shadows')]
@@ -870,16 +899,23 @@ class _Gen(object):
                 if self.chance(3):
                     p['getter'] = self.pick(meths)['name']
         if 'signal' in kinds:
-            out += [self.signal(j) for j in range(self.pick([0, 0, 1, 2, 3]))]
+            sigs = [self.signal(j) for j in range(count('signals', [0, 0, 1, 2, 3], [1, 2, 3]))]
+            keep_first(sigs)
+            out += sigs
         if 'vfunc' in kinds:
-            for j in range(self.pick([0, 0, 1, 2, 3])):
+            vfs = []
+            for j in range(count('vfuncs', [0, 0, 1, 2, 3], [1, 2, 3])):
                 v = self.function('vf%d' % j, 'vfunc', owner=me)
                 v['m'] = 'vfunc'
                 self.info(v, hide=1)
                 v['invoker'] = self.pick(meths)['name'] if meths and self.chance(5) else None
-                out.append(v)
+                vfs.append(v)
+            keep_first(vfs)
+            out += vfs
         if 'constant' in kinds:
-            out += [self.constant('MK%d' % j, member=True) for j in range(self.pick([0, 0, 0, 1, 2]))]
+            consts = [self.constant('MK%d' % j, member=True) for j in range(count('constants', [0, 0, 0, 1, 2], [1, 1, 2]))]
+            keep_first(consts)
+            out += consts
         if self.chance(3):
             out = list(self.draw(st.permutations(out)))
         e['members'] = out
@@ -906,8 +942,18 @@ class _Gen(object):
     # -- planning and entries
     def make_plan(self):
         idx = 0
-        while idx < self.n:
-            k = self.pick(_KIND_WEIGHTS)
+        # bias mode: three interfaces first (so that classes can implement and interfaces can require
+        # 0-3 of them), then one entry per forced shape and at least one class, then n entries drawn
+        # with the container weights
+        forced = []
+        if self.bias is not None:
+            forced = ['interface'] * 3 + [sh['k'] for sh in self.shapes]
+            if 'class' not in forced:
+                forced.append('class')
+        limit = self.n + len(forced)
+        while idx < limit or forced:
+            was_forced = bool(forced)
+            k = forced.pop(0) if forced else self.pick(_KIND_WEIGHTS if self.bias is None else _BIAS_WEIGHTS)
             name = '%s%d' % (_NAMEBASE[k], idx)
             if k == 'constant':
                 name = name.upper()
@@ -916,6 +962,8 @@ class _Gen(object):
             if k == 'record':
                 flag = self.pick([None] * 6 + ['disguised', 'opaque', 'pointer', 'foreign'])
                 p['flag'] = flag
+            if was_forced:
+                p['intro'] = None
             if k in ('class', 'interface') and self.chance(5):
                 p['type_struct'] = name + ('Class' if k == 'class' else 'Iface')
             self.plan.append(p)
@@ -960,6 +1008,19 @@ class _Gen(object):
             # a use site of an alias is written with the alias' own C name (a typedef of the target)
             self.aliases[p['name']] = a
 
+    def next_shape(self, kind):
+        """bias mode: the forced shape planned for this class/interface, else a drawn one (every section
+        empty or not with probability 1/2, 0-3 interfaces/prerequisites); None without bias."""
+        if self.bias is None:
+            return None
+        for j, sh in enumerate(self.shapes):
+            if sh['k'] == kind:
+                return self.shapes.pop(j)
+        sh = {'k': kind, 'n': self.pick([0, 0, 1, 1, 2, 3])}
+        for sec in SHAPE_SECTIONS:
+            sh[sec] = self.chance(5)
+        return sh
+
     def gtype(self, name, force=False):
         if force or self.chance(5):
             return [self.idp + name, '%s_%s_get_type' % (self.symp, name.lower())]
@@ -1002,7 +1063,7 @@ class _Gen(object):
                                 'dep': self.pick([None] * 8 + ['1', '1', '0']), 'attrs': self.attrs(1, 40)})
             e['members'] = members
             funcs = []
-            for j in range(self.pick([0, 0, 0, 1, 2])):
+            for j in range(self.pick([0, 0, 0, 1, 2] if self.bias is None else [0, 1, 1, 2])):
                 f = self.function('ef%d' % j, 'function', cprefix='%s_%s' % (self.symp, name.lower()))
                 self.info(f, hide=1)
                 f['moved_to'] = None
@@ -1042,18 +1103,28 @@ class _Gen(object):
                 e[key] = '%s_%s_%s' % (self.symp, name.lower(), sfx) if fundamental and self.chance(8) else None
             e['type_struct'] = p.get('type_struct')
             ifs = [n for n, i in self.type_refs(('interface',))]
-            e['implements'] = list(self.draw(st.lists(st.sampled_from(ifs), max_size=3, unique=True))) if ifs and self.chance(8) else []
-            self.members(e, idx, ('field', 'property', 'method', 'constructor', 'function', 'signal', 'vfunc', 'constant'))
+            shape = self.next_shape('class')
+            if shape is None:
+                e['implements'] = list(self.draw(st.lists(st.sampled_from(ifs), max_size=3, unique=True))) if ifs and self.chance(8) else []
+            else:
+                n = min(shape['n'], len(ifs))
+                e['implements'] = list(self.draw(st.lists(st.sampled_from(ifs), min_size=n, max_size=n, unique=True))) if n else []
+            self.members(e, idx, ('field', 'property', 'method', 'constructor', 'function', 'signal', 'vfunc', 'constant'), shape)
             return e
         if k == 'interface':
             e['gtype'] = self.gtype(name, force=True)
             e['type_struct'] = p.get('type_struct')
             pre = [n for n, i in self.type_refs(('interface', 'class')) if n != name]
-            e['prereqs'] = list(self.draw(st.lists(st.sampled_from(pre), max_size=3, unique=True))) if pre and self.chance(6) else []
+            shape = self.next_shape('interface')
+            if shape is None:
+                e['prereqs'] = list(self.draw(st.lists(st.sampled_from(pre), max_size=3, unique=True))) if pre and self.chance(6) else []
+            else:
+                n = min(shape['n'], len(pre))
+                e['prereqs'] = list(self.draw(st.lists(st.sampled_from(pre), min_size=n, max_size=n, unique=True))) if n else []
             kinds = ['property', 'method', 'function', 'signal', 'vfunc', 'constant']
             if self.rare and self.chance(1, 12):
                 kinds.append('constructor')
-            self.members(e, idx, tuple(kinds))
+            self.members(e, idx, tuple(kinds), shape)
             return e
         raise ValueError(k)
 
@@ -1084,8 +1155,14 @@ def _reaches_glib(names, infos):
 
 
 @st.composite
-def cases(draw, max_entries=25, rare=True):
-    """Strategy of cases {'docs': [dependency docs..., main doc]}."""
+def cases(draw, max_entries=25, rare=True, bias=None):
+    """Strategy of cases {'docs': [dependency docs..., main doc]}.
+    bias (C09; None = unchanged behaviour): {'shapes': [{'k': 'class'|'interface', 'n': interfaces /
+    prerequisites wanted (0-3), 'fields'.. 'constants': bool}, ...]} forces these container shapes on
+    the first classes/interfaces of the MAIN namespace; all other classes/interfaces of every
+    namespace of the case draw a shape (each member section empty or not with probability 1/2).
+    Bias mode also plans three interfaces first, prefers container kinds, embeds more callbacks in
+    record/class fields (never in unions) and attaches more <attribute> children."""
     ndeps = draw(st.sampled_from([0, 0, 1, 1, 2]))
     docs = []
     infos = {n: nsinfo_from_fixture(n) for n in FIXTURE_NAMES}
@@ -1105,7 +1182,8 @@ def cases(draw, max_entries=25, rare=True):
         incl = [list(i) for i in draw(st.permutations(incl))] if incl else []
         env = {i[0]: infos[i[0]] for i in incl}
         n = draw(st.sampled_from(_SIZES if main else _SIZES[:10]))
-        g = _Gen(draw, name, version, incl, env, _reaches_glib([i[0] for i in incl], infos), min(n, max_entries), rare=rare)
+        g = _Gen(draw, name, version, incl, env, _reaches_glib([i[0] for i in incl], infos), min(n, max_entries), rare=rare,
+                 bias=None if bias is None else {'shapes': list(bias.get('shapes') or []) if main else []})
         doc = g.document()
         _mark_sizeable(doc)
         docs.append(doc)
